@@ -181,6 +181,11 @@ def check_type_case(ctx, case, stratum="type"):
     if case.get("wrap") == "poly":
         x = tys.PolyFuncType([tys.TypeTypeParam(tys.TypeBound.Any)], tys.FunctionType([x], [x, tys.Bool]))
         ctx.feat("feature:polyfunc")
+    elif case.get("wrap") == "endo":
+        # a function type whose output row EQUALS its input row without being written the same way (the empty tuple and
+        # the unit sum, a general sum of two empty rows and Bool): resolution must not mistake one row for the other
+        x = tys.FunctionType([x, tys.Tuple(), tys.Sum([[], []])], [x, tys.Unit, tys.Bool])
+        ctx.feat("feature:equal-rows-spelled-differently")
     elif case.get("wrap") == "arg":
         x = tys.Opaque("Outer", tys.TypeBound.Any, [tys.TypeTypeArg(x), tys.SequenceArg([tys.TypeTypeArg(x)])],
                        "unknown.ext")
@@ -486,7 +491,7 @@ def run(ctx):
         universe = {e.name: {"types": sorted(e.types), "ops": []} for e in hx.std_extensions()}
         universe.setdefault("verif.test", {"types": [], "ops": []})
         universe["verif.test"]["types"] = sorted(set(universe["verif.test"]["types"]) | set(g._defs))
-        case = {"ty": d, "reg": gen_registry_spec(r, universe), "wrap": r.choice([None, None, "poly", "arg"])}
+        case = {"ty": d, "reg": gen_registry_spec(r, universe), "wrap": r.choice([None, None, "poly", "arg", "endo"])}
         if i % 2:
             case["reg2"] = gen_registry_spec(r, universe)
         nt = ctx.guard("type", case, check_type_case, ctx, case)
